@@ -412,6 +412,44 @@ class Unroller(ast.NodeTransformer):
         self.count += 1
         return ast.copy_location(ast.List(elts=[e for e, _c in items], ctx=ast.Load()), node)
 
+    def visit_Assign(self, node):
+        self.generic_visit(node)
+        if len(node.targets) != 1:
+            return node
+        t, v = node.targets[0], node.value
+        names = [x.id for x in t.elts] if isinstance(t, ast.Tuple) and all(isinstance(x, ast.Name) for x in t.elts) else None
+        if names and isinstance(v, ast.GeneratorExp):
+            # a generator over a constant table that is unpacked at once: its items, in order
+            items = self._comp_items(v, lambda m: _FoldAttr().visit(_Subst(m).visit(copy.deepcopy(v.elt))))
+            if items is not None and not any(c for _e, c in items) and len(items) == len(names):
+                v = ast.copy_location(ast.Tuple(elts=[e for e, _c in items], ctx=ast.Load()), v)
+                node.value = v
+                self.count += 1
+        if names and len(set(names)) == len(names) and isinstance(v, (ast.Tuple, ast.List)) and len(v.elts) == len(names) and not any(isinstance(x, ast.Starred) for x in v.elts):
+            # a, b = e1, e2 where neither expression reads a or b: two assignments
+            read = {x.id for e in v.elts for x in ast.walk(e) if isinstance(x, ast.Name)}
+            if not read & set(names):
+                return [ast.copy_location(ast.Assign(targets=[ast.copy_location(ast.Name(id=n, ctx=ast.Store()), tn)], value=e, type_comment=None), node) for n, tn, e in zip(names, t.elts, v.elts)]
+        if isinstance(t, ast.Name) and isinstance(v, ast.Call) and isinstance(v.func, ast.Name) and v.func.id == "next" and len(v.args) == 1 and not v.keywords and isinstance(v.args[0], ast.GeneratorExp):
+            # x = next(i for i in itertools.count(S) if C)  ==  x = S; while not C[i := x]: x += 1
+            g = v.args[0]
+            if len(g.generators) == 1 and not g.generators[0].is_async:
+                gen = g.generators[0]
+                it = gen.iter
+                is_count = isinstance(it, ast.Call) and not it.keywords and len(it.args) == 1 and ((isinstance(it.func, ast.Name) and it.func.id == "count") or (isinstance(it.func, ast.Attribute) and it.func.attr == "count" and isinstance(it.func.value, ast.Name) and it.func.value.id == "itertools"))
+                if is_count and isinstance(gen.target, ast.Name) and isinstance(g.elt, ast.Name) and g.elt.id == gen.target.id and gen.ifs:
+                    i = gen.target.id
+                    reads = {x.id for c in gen.ifs for x in ast.walk(c) if isinstance(x, ast.Name)}
+                    if t.id not in reads or t.id == i:
+                        cond = gen.ifs[0] if len(gen.ifs) == 1 else ast.BoolOp(op=ast.And(), values=list(gen.ifs))
+                        cond = _Subst({i: ast.Name(id=t.id, ctx=ast.Load())}).visit(copy.deepcopy(cond))
+                        first = ast.copy_location(ast.Assign(targets=[t], value=it.args[0], type_comment=None), node)
+                        step = ast.copy_location(ast.AugAssign(target=ast.Name(id=t.id, ctx=ast.Store()), op=ast.Add(), value=ast.Constant(value=1)), node)
+                        loop = ast.copy_location(ast.While(test=ast.UnaryOp(op=ast.Not(), operand=cond), body=[step], orelse=[]), node)
+                        self.count += 1
+                        return [first, loop]
+        return node
+
     def visit_Call(self, node):
         self.generic_visit(node)
         if isinstance(node.func, ast.Name) and node.func.id in ("all", "any") and len(node.args) == 1 and not node.keywords and isinstance(node.args[0], (ast.GeneratorExp, ast.ListComp, ast.List)):
@@ -527,8 +565,119 @@ class _SubElement(ast.NodeTransformer):
         return node
 
 
+def _callable_literal(e):
+    """lambda without defaults, or operator.attrgetter("name")"""
+    if isinstance(e, ast.Lambda):
+        return _simple(e)
+    if isinstance(e, ast.Call) and not e.keywords and len(e.args) == 1 and isinstance(e.args[0], ast.Constant) and isinstance(e.args[0].value, str) and e.args[0].value.isidentifier():
+        f = e.func
+        return (isinstance(f, ast.Name) and f.id == "attrgetter") or (isinstance(f, ast.Attribute) and f.attr == "attrgetter" and isinstance(f.value, ast.Name) and f.value.id == "operator")
+    return False
+
+
+class _ApplyParam(ast.NodeTransformer):
+    """p(x) -> body of the lambda bound to p with x substituted / x.name for attrgetter("name")"""
+
+    def __init__(self, mapping):
+        self.mapping = mapping
+        self.failed = False
+
+    def visit_Call(self, node):
+        self.generic_visit(node)
+        if isinstance(node.func, ast.Name) and node.func.id in self.mapping:
+            lit = self.mapping[node.func.id]
+            if node.keywords or any(isinstance(a, ast.Starred) for a in node.args):
+                self.failed = True
+                return node
+            if isinstance(lit, ast.Lambda):
+                if len(node.args) != len(lit.args.args):
+                    self.failed = True
+                    return node
+                new = _Beta().visit(ast.copy_location(ast.Call(func=copy.deepcopy(lit), args=node.args, keywords=[]), node))
+                if isinstance(new, ast.Call) and isinstance(new.func, ast.Lambda):
+                    self.failed = True
+                return new
+            if len(node.args) != 1:
+                self.failed = True
+                return node
+            return ast.copy_location(ast.Attribute(value=node.args[0], attr=lit.args[0].value, ctx=ast.Load()), node)
+        return node
+
+
+def _delegations(tree):
+    """A method whose whole body is `return self.helper(.., <callable literal>, ..)` — a private helper of the same
+    class parameterised by a function — is given the helper's body with the function applied: the two spellings
+    `def succ(self, n): return self._walk(n, attrgetter("successor"))` and the walk written out over `.successor`
+    are the same program.  Other arguments become assignments to the helper's parameters at the top of the body."""
+    count = 0
+    for cls in [n for n in ast.walk(tree) if isinstance(n, ast.ClassDef)]:
+        methods = {st.name: st for st in cls.body if isinstance(st, ast.FunctionDef)}
+        for f in list(methods.values()):
+            got = _single_return(f)
+            if got is None:
+                continue
+            call = got[0]
+            if not (isinstance(call, ast.Call) and isinstance(call.func, ast.Attribute) and isinstance(call.func.value, ast.Name) and f.args.args and call.func.value.id == f.args.args[0].arg):
+                continue
+            h = methods.get(call.func.attr)
+            if h is None or h is f or h.decorator_list != [] and {ast.unparse(d) for d in h.decorator_list} != {ast.unparse(d) for d in f.decorator_list}:
+                continue
+            if not any(_callable_literal(a) for a in list(call.args) + [k.value for k in call.keywords]):
+                continue
+            if any(isinstance(a, ast.Starred) for a in call.args) or any(k.arg is None for k in call.keywords):
+                continue
+            ha = h.args
+            if ha.vararg or ha.kwarg or ha.posonlyargs or ha.kwonlyargs or any(isinstance(n, (ast.Yield, ast.YieldFrom)) for n in ast.walk(h)):
+                continue
+            params = [a.arg for a in ha.args][1:]
+            if len(call.args) > len(params):
+                continue
+            bound = dict(zip(params, call.args))
+            ok = True
+            for k in call.keywords:
+                if k.arg in bound or k.arg not in params:
+                    ok = False
+                bound[k.arg] = k.value
+            defaults = dict(zip(params[len(params) - len(ha.defaults):], ha.defaults)) if ha.defaults else {}
+            for prm in params:
+                if prm not in bound:
+                    if prm in defaults:
+                        bound[prm] = defaults[prm]
+                    else:
+                        ok = False
+            if not ok:
+                continue
+            stored = {n.id for n in ast.walk(h) if isinstance(n, ast.Name) and isinstance(n.ctx, (ast.Store, ast.Del))}
+            fun = {prm: a for prm, a in bound.items() if _callable_literal(a) and prm not in stored}
+            # a function parameter must only ever be called
+            callee_ids = {id(n.func) for n in ast.walk(h) if isinstance(n, ast.Call)}
+            if any(isinstance(n, ast.Name) and n.id in fun and id(n) not in callee_ids for n in ast.walk(h)):
+                continue
+            if any(not _simple(a) and not _callable_literal(a) for prm, a in bound.items() if prm not in fun):
+                continue
+            hs, fs = h.args.args[0].arg, f.args.args[0].arg
+            body = [copy.deepcopy(st) for st in h.body]
+            ap = _ApplyParam(fun)
+            body = [ap.visit(st) for st in body]
+            if ap.failed:
+                continue
+            if hs != fs:
+                body = [_Subst({hs: ast.Name(id=fs, ctx=ast.Load())}).visit(st) for st in body]
+            pre = []
+            for prm, a in bound.items():
+                if prm in fun or (isinstance(a, ast.Name) and a.id == prm):
+                    continue
+                pre.append(ast.copy_location(ast.Assign(targets=[ast.Name(id=prm, ctx=ast.Store())], value=copy.deepcopy(a), type_comment=None), call))
+            doc = [st for st in f.body if isinstance(st, ast.Expr) and isinstance(st.value, ast.Constant)]
+            body = [st for st in body if not (isinstance(st, ast.Expr) and isinstance(st.value, ast.Constant) and isinstance(st.value.value, str))]
+            f.body = doc + pre + body
+            count += 1
+    return count
+
+
 def normalise(tree):
     """unroll table-driven loops and fold constant getattr / setattr; returns (tree, number of loops unrolled)"""
+    _delegations(tree)
     u = Unroller(tree)
     tree = u.visit(tree)
     tree = _FoldAttr().visit(tree)
